@@ -47,10 +47,12 @@ def pmap(fn, items, chunksize=None):
         pool.join()
 
 
-def mc_and_export(ctx, module, cfg, must_cover=(), min_records=1, timeout=3000):
+def mc_and_export(ctx, module, cfg, must_cover=(), min_records=1, timeout=3000, coverage=True, workers=1):
     """One TLC run (one worker, coverage on) whose config lists the invariants *and* the emitting
-    invariant: the design-level check and the export of the behaviours at once."""
-    res = core.run_tlc(module, cfg, ctx.workdir, workers=1, coverage=True, timeout=timeout)
+    invariant: the design-level check and the export of the behaviours at once.
+    coverage=False: TLC's coverage statistics are not collected (the caller guards against vacuity itself);
+    several workers may then be used, the records are returned in a canonical order."""
+    res = core.run_tlc(module, cfg, ctx.workdir, workers=workers, coverage=coverage, timeout=timeout)
     ctx._account("mc+export", module, cfg, res)
     if res.exit != 0:
         raise core.MachineryError("TLC %s/%s failed (exit %s, violated %s):\n%s" % (
@@ -60,4 +62,6 @@ def mc_and_export(ctx, module, cfg, must_cover=(), min_records=1, timeout=3000):
             raise core.MachineryError("vacuous model: action %s of %s/%s never taken" % (a, module, cfg))
     if len(res.records) < min_records:
         raise core.MachineryError("TLC export %s/%s produced %d records" % (module, cfg, len(res.records)))
+    if workers > 1:
+        res.records.sort(key=core.canon)
     return res.records
